@@ -1,8 +1,8 @@
 #!/bin/bash
-# usage: seedeval.sh <ID> [check-id]  : A (confirm in scratch worktree) + B (run quick check with the patch applied to /repo) for k=1..3
-ID=$1; CK=${2:-$1}
+# usage: seedeval.sh <ID> [check-id] [seed-root]  : A (confirm in scratch worktree) + B (quick check with the patch applied to /repo) for k=1..3
+ID=$1; CK=${2:-$1}; S=${3:-/tmp/s}
 for k in 1 2 3; do
-  [ -f /tmp/s/$ID/out/$k/patch.diff ] || { echo "$ID/$k no patch"; continue; }
-  /verif/bin/seedA.sh $ID $k
-  echo "--- check $CK with $ID/$k"; /verif/bin/mutant.sh /tmp/s/$ID/out/$k/patch.diff $CK quick 2>&1 | cut -c1-260 | head -6
+  [ -f $S/$ID/out/$k/patch.diff ] || { echo "$ID/$k no patch"; continue; }
+  /verif/bin/seedA.sh $ID $k $S
+  echo "--- check $CK with $ID/$k"; /verif/bin/mutant.sh $S/$ID/out/$k/patch.diff $CK quick 2>&1 | grep -E "key:|^C[0-9]+ quick|exit=|ENGINE|not clean|does not apply" | head -5 | cut -c1-220
 done
